@@ -69,6 +69,13 @@ func main() {
 		c := report.NewCollector(*prop)
 		ctx := &props.Ctx{P: p, C: c, Tier: *tier, Dump: *dump}
 		info := run(ctx)
+		if len(*dump) > 5 && (*dump)[:5] == "obls:" {
+			for _, o := range c.Obls {
+				if o.Rule == (*dump)[5:] {
+					fmt.Printf("OBL %-12s %s | %s | %s\n      %s\n", o.Status, o.Func, o.Construct, o.Pos, o.Detail)
+				}
+			}
+		}
 		out := *verif
 		if *noEvidence {
 			out, _ = os.MkdirTemp("", "dcmcheck-sub")
